@@ -18,6 +18,7 @@ import Grip.Model.C12
 import GripProofs.Lemmas.C12
 import GripProofs.Lemmas.C12Proto
 import GripProofs.Lemmas.C12Cons
+import GripProofs.Lemmas.C12Term
 
 set_option linter.unusedSimpArgs false
 namespace Grip.Props.C12
@@ -192,5 +193,36 @@ example : Bounded exLoop (fun t => 3 - t) := by
   omega
 
 example : iterate exLoop 5 [0] = [1, 2, 3] := by decide
+
+/-- **Termination, shutdown phase** (the property's "terminates once no traveler remains in the
+    cycle").  From a reachable state in which no traveler is left — main input closed and
+    exhausted, no traveler in any channel of the cycle — every step of any goroutine is an idle
+    poll (`s' = s`), the mark's closing step, or leads to such a state again with a strictly
+    smaller `shutRank` (≤ 2·n + 5, n = number of stages).  Together with `no_stuck_state` (a
+    non-idle step is enabled until the mark has closed) this gives: under weak fairness of the
+    goroutines the mark closes within `shutRank` non-idle steps, whatever signals were outdated
+    before.
+
+    PARTIAL — what is missing for the full `terminates_bounded`: (1) the ranking argument for the
+    phase in which travelers are still circulating.  The intended rank is
+    `(n+3) · ticks(s) + shutRank s`, where `ticks` is the `pot` of `conservation` instantiated with
+    the tick system (every stage move and every mark forward emits one tick; finite by
+    `SysBounded`): a traveler move lowers `ticks` by one and can at most set `signalOutdated`
+    (+n+2), every signal move lowers `shutRank`.  It is not mechanised.  (2) Fairness itself
+    (infinite executions) is not formalised: the theorem bounds the non-idle steps, it does not
+    model the Go scheduler (the queue's output goroutine busy-waits, the mark sleeps 1µs per
+    empty poll). -/
+theorem terminates_once_empty_partial {sys : List (Stage T)} {inp0 : List T} {s s' : State T}
+    {l : Label} (h : Reachable sys inp0 s) (hq : Quiescent s) (hs : Step sys l s s') :
+    s' = s ∨ s'.phase = .closed ∨ (Quiescent s' ∧ shutRank sys s' < shutRank sys s) :=
+  shutdown_step (protoInv_reachable h) hq hs
+
+/-- The hypothesis of `terminates_once_empty_partial` is met: e.g. right after the main input
+    of an empty traversal has closed. -/
+example : Quiescent ({ init ([] : List Nat) with phase := .closing }) := by
+  simp [Quiescent, init, travCount]
+
+example : Reachable (loopSys exLoop) [] ({ init ([] : List Nat) with phase := .closing }) :=
+  Reachable.step Reachable.init (Step.openClose rfl (by simp [init]) rfl)
 
 end Grip.Props.C12
